@@ -277,7 +277,7 @@ def build_ready_and_power_cmds(run, prop, E):
         spec_ready = z3.Or(z3.And(z3.Not(rxn), z3.Not(txn)), z3.BoolVal(fh_set))
         E.summaries = {}
         for p, ctx, out in run_paths(E, setup, lambda E, ctx: E.call(rd, [ctx["self"]])):
-            tag = {"what": "ready"}
+            tag = {"what": "ready", "fh": fh_set}
             cs = "fh=%s" % fh_set
             if out[0] == "raise" or not isinstance(out[1], (bool, SBool)):
                 run.add(Obligation(prop, qualname(rd), "returns_bool", p.pc, z3.BoolVal(False), kind="post", case=cs, where=where(rd), tag=tag))
@@ -727,6 +727,21 @@ def replay(payload):
         if gen is not None and idx > 0:
             bad.append("child with clock accepted")
         return {"confirmed": bool(bad), "observed": bad or "ports ok", "expected": "documented port plan"}
+    if what == "ready":
+        gs = toolkit("gsm_shared")
+        bad = []
+        for rx_none in (True, False):
+            for tx_none in (True, False):
+                for fh in (False, True):
+                    t = native_trx()
+                    t._rx_freq = None if rx_none else 935200000
+                    t._tx_freq = None if tx_none else 890200000
+                    if fh:
+                        t.enable_fh(1, 0, [(935200000, 890200000)])
+                    want = (not rx_none and not tx_none) or fh
+                    if bool(t.ready) != want:
+                        bad.append({"rx tuned": not rx_none, "tx tuned": not tx_none, "hopping": fh, "ready": t.ready})
+        return {"confirmed": bool(bad), "observed": bad or "ready iff tuned or hopping (all 8 combinations)", "expected": "ready iff (RXTUNE and TXTUNE given) or SETFH given"}
     if what == "powercmd":
         t = native_trx()
         t.running = bool(f["t.running"])
